@@ -14,7 +14,7 @@ from vlib import COQ, Hit, Result, diff_lines, sh
 ASSUMPTIONS = [
     'sequentially consistent interleaving at LOAD/CAS granularity; compare_exchange_weak never fails spuriously on x86 (the index-queue model allows it, the lock-step runs do not exercise it)',
     'deque: anchor and link tags are unbounded in the model (16 bit in the code: a wrap within one stalled window is not modelled)',
-    'deque: boost freelist_stack::allocate / deallocate are one atomic step each (their internal CAS loops are not split); the node constructor (two link stores + data) is one step',
+    'deque: boost freelist_stack::allocate / deallocate are one atomic step each (their internal CAS loops are not split); the node constructor (reads of the two link tags left in the chunk + two link stores + data) is one step, and so is the pushes\' private link store (tag read + store); fresh chunks are zero-filled by the pool (boost >= 1.77)',
     'moodycamel ConcurrentQueue internals are specified (bag with per-producer FIFO), not modelled: the FIFO back-end is covered by differential and conservation TESTS only',
 ]
 
@@ -385,10 +385,9 @@ def replay(ctx, r, drv, h_iq, h_dq, h_ff):
     r.rule = 'replay of %s' % ctx.replay
     if hn == 'c17_deque':
         p = case.split(' ')
-        if args and args[0] == 'witness2' or (len(p) > 2 and p[2] == 'w2'):
-            hargs = ['witness2', 0, 0, 1]
-        elif args and args[0] == 'witness' or (len(p) > 2 and p[2] == 'w'):
-            hargs = ['witness', 0, 0, 1]
+        wmodes = {'w': 'witness', 'w2': 'witness2', 'w3': 'witness3', 'w4': 'witness4'}
+        if (args and args[0] in wmodes.values()) or (len(p) > 2 and p[2] in wmodes):
+            hargs = [args[0] if args and args[0] in wmodes.values() else wmodes[p[2]], 0, 0, 1]
         elif args and args[0] == 'seq':
             hargs = ['seq', int(args[1]), int(p[2]) if len(p) > 2 else int(args[2]), 1]
         else:
@@ -483,7 +482,10 @@ def run(ctx):
     # ---------------- deque: the former F15 witness schedule on the real container (harmless since the
     # `fix:` commit: the drain must be 100,5,6; with the fix reverted the monitor reports the duplicate)
     # (second schedule: the target link is written by a push's private store — the other half of the fix)
-    for (wmode, wid, wcmd, wrest) in (('witness', 'w', 'WITNESS', '100,5,6'), ('witness2', 'w2', 'WITNESS2', '5,7')):
+    # (witness3 / witness4: their mirror images — stabilize_left, the left link = word 0 of the chunk; the
+    # victim pops from the right after its push and must get 100,5,6 resp. 5,7; the deque is then empty)
+    for (wmode, wid, wcmd, wrest) in (('witness', 'w', 'WITNESS', '100,5,6'), ('witness2', 'w2', 'WITNESS2', '5,7'),
+                                      ('witness3', 'w3', 'WITNESS3', '-'), ('witness4', 'w4', 'WITNESS4', '-')):
         ins, outs, died, errs = run_deque_harness(ctx, h_dq, wmode, 0, 0, 1, 120)
         rcw, wout = sh([drv], input='IN %s\n' % wcmd, timeout=60)
         wl = [x for x in wout.split('\n') if x.startswith('OUT ' + wcmd + ' ')]
@@ -503,7 +505,7 @@ def run(ctx):
         check_deque_cases(ctx, r, drv, 'F15 ' + wmode, [wmode], ins, outs, died, errs)
         reproduced = len([h for h in r.hits if h.kind == 'monitor']) > before
         r.extra['f15_' + wmode] = {'schedule_matches_coq_witness': wit_ok, 'duplicate_and_loss_observed_on_real_deque': reproduced,
-                                   'drain_is_' + wrest.replace(',', '_'): outs.get(wid, '').endswith('rest=' + wrest),
+                                   'drain_is_' + wrest.replace(',', '_').replace('-', 'empty'): outs.get(wid, '').endswith('rest=' + wrest),
                                    'observed': outs.get(wid, '')[-120:]}
 
     # ---------------- deque: generated lock-step cases
